@@ -1,6 +1,7 @@
 """C09 — tolerances mean what they say (noise twins, returned tolerances, scaling covariance)."""
 import re
 from checks import pipe
+import vlib
 
 PROPS = [("Moyo.Props.C09", "Moyo/Props/C09.lean")]
 
@@ -35,16 +36,76 @@ def twins(per_mode):
     return fails
 
 
+def adjust(per_mode):
+    """S12: the recorded sequence of tolerance updates must be the one the Lean model of ToleranceHandler predicts
+    from the recorded errors, and the returned symprec must be the tolerance of the last (successful) attempt."""
+    fails = []
+    if "adjust" not in per_mode:
+        return fails
+    reqs, ans = per_mode["adjust"]
+    todo = []
+    for line, a in zip(reqs, ans):
+        errs = pipe.seg(line, "terrs")
+        if errs and errs != "none":
+            todo.append((line, a, errs))
+    if not todo:
+        return fails
+    outs = vlib.run_model(["c09replay " + e for _, _, e in todo])
+    adjust.reached = len(todo)
+    for (line, a, errs), o in zip(todo, outs):
+        p = pipe.parse_answer(a)
+        tag = line.split(" ")[1]
+        try:
+            exps = [vlib.parse_num(x) for x in o.split()]
+        except Exception:
+            fails.append(("adjust", line, f"C09: {tag}: model could not replay the error sequence: {o[:100]}"))
+            continue
+        s0 = float(vlib.parse_num(pipe.seg(line, "symprec")))
+        rec = [float(vlib.parse_num(x)) for x in (pipe.seg(line, "tsyms") or "").split()]
+        nerr = len(errs.split())
+        if nerr > 64:
+            fails.append(("adjust", line, f"C09: {tag}: {nerr} tolerance updates, more than MAX_HANDLER*MAX_TRIALS = 64"))
+            continue
+        if len(exps) != nerr + 1 and nerr < 64:
+            fails.append(("adjust", line, f"C09: {tag}: model predicts {len(exps)} attempts for {nerr} recorded errors"))
+            continue
+        bad = None
+        for i, x in enumerate(rec):
+            if i < len(exps):
+                pred = s0 * 2.0 ** float(exps[i])
+                if abs(pred - x) > 1e-12 * max(abs(pred), abs(x)):
+                    bad = f"attempt {i}: symprec {x} recorded, model predicts {pred} (= requested * 2^{float(exps[i])})"
+                    break
+        if bad is None and p and p["outcome"] == "ok" and len(exps) == nerr + 1:
+            ret = float(vlib.parse_num(pipe.seg(line, "osymprec")))
+            pred = s0 * 2.0 ** float(exps[-1])
+            if abs(pred - ret) > 1e-12 * max(abs(pred), abs(ret)):
+                bad = (f"returned symprec {ret} is not the tolerance of the last (successful) attempt {pred} "
+                       f"(requested {s0}, {nerr} adjustments: {errs[:120]})")
+        if bad:
+            fails.append(("adjust", line, f"C09: {tag}: {bad}"))
+    return fails
+
+
+adjust.reached = 0
+
+
+def both(per_mode):
+    return twins(per_mode) + adjust(per_mode)
+
+
 def nontrivial(p, line):
     return p["outcome"] == "ok" and not p["tag"].endswith("clean")
 
 
 def run(tier, seed):
-    return pipe.run_property("C09", tier, seed, ["noise"], PROPS,
+    return pipe.run_property("C09", tier, seed, ["noise", "adjust"], PROPS,
                              {"rule": "noise mode: for each of 130 (quick) / 530 (thorough) Hall settings an undistorted crystal, 2 (4) noisy twins "
                                       "(displacements <= 5% symprec + lattice strain) and a uniformly scaled twin (factor 1e-2..1e3, symprec scaled along); "
-                                      "a case is non-trivial when it is a distorted/scaled twin that returned a dataset; distinct = distinct input cells"},
-                             nontrivial, extra=twins,
+                                      "a case is non-trivial when it is a distorted/scaled twin that returned a dataset; distinct = distinct input cells; "
+                                      "adjust mode: 260 (1500) crystals with noise of 0.3..4 x symprec or oversized symprec, where the first attempt fails: the recorded "
+                                      "ToleranceHandler updates (hook trace) must equal the Lean model's replay of the recorded errors and the returned symprec must be the last attempt's"},
+                             nontrivial, extra=both,
                              trusted=["premise validation of the generator (symmetry gap >= 20 symprec) is a brute-force search in Rust, independent of moyo",
                                       "f64 rounding inside moyo is not modelled; the oracle judges the returned values exactly"])
 
